@@ -151,6 +151,7 @@ class Session:
         self.ev: Dict[str, List[dict]] = {k: [] for k in ("classdb", "queue", "equiv", "table", "hasspec", "search")}
         self.stream: List[dict] = []  # classdb + add events in order (Trace_Search)
         self.checks = 0
+        self.answers: List[bool] = []
         self.clock = Clock()
         self.tick = TickClock()
         self.ruledb = {"default": RuleDB, "forget": RuleDBForgetStrategy,
@@ -158,9 +159,9 @@ class Session:
         self.classdb = ClassDB(type(start))
         self.queue = DefaultQueue(pack)
         self.recs = []
-        if "classdb" in self.record or "search" in self.record:
-            self.cdb_rec = ins.ClassDBRecorder(self.classdb, self.namer, sink=self.stream)
-            self.recs.append(self.cdb_rec)
+        self.cdb_rec = ins.ClassDBRecorder(self.classdb, self.namer, sink=self.stream)
+        self.cdb_rec.enabled = "classdb" in self.record or "search" in self.record
+        self.recs.append(self.cdb_rec)
         if "queue" in self.record:
             self.q_rec = ins.QueueRecorder(self.queue, sink=self.ev["queue"])
             self.recs.append(self.q_rec)
@@ -181,10 +182,48 @@ class Session:
         finally:
             _ACTIVE.pop()
 
+    @classmethod
+    def adopt(cls, searcher, pack, flavour, schedule=(0,), record=("queue",), namer=None):
+        """A session around an existing searcher (e.g. one restored from a pickle)."""
+        _install()
+        self = cls.__new__(cls)
+        self.start, self.pack, self.flavour = searcher.start_class, pack, flavour
+        self.schedule = list(schedule) or [0]
+        self.sched_pos = 0
+        self.record = set(record)
+        self.track_keys = False
+        self.namer = namer or ins.Namer("c")
+        self.origins = {}
+        self.packets = []
+        self.raw_rules = []
+        self.ev = {k: [] for k in ("classdb", "queue", "equiv", "table", "hasspec", "search")}
+        self.stream = []
+        self.checks = 0
+        self.clock = Clock()
+        self.tick = TickClock()
+        self.ruledb, self.classdb, self.queue = searcher.ruledb, searcher.classdb, searcher.classqueue
+        self.recs = []
+        self.cdb_rec = ins.ClassDBRecorder(self.classdb, self.namer, sink=self.stream)
+        self.cdb_rec.enabled = "classdb" in self.record or "search" in self.record
+        self.recs.append(self.cdb_rec)
+        if "queue" in self.record:
+            self.q_rec = ins.QueueRecorder(self.queue, sink=self.ev["queue"])
+            self.recs.append(self.q_rec)
+        self.eq_rec = self.tm_rec = None
+        self.searcher = searcher
+        self.answers = []
+        return self
+
     # ---- hooks --------------------------------------------------------------------------
     def on_packet(self, label, strategies, inferral):
         self.clock.now += 1.0
-        self.packets.append({"l": int(label), "inf": bool(inferral), "s": [strat_id(s) for s in strategies]})
+        rec = {"l": int(label), "inf": bool(inferral), "s": [strat_id(s) for s in strategies]}
+        q_rec = getattr(self, "q_rec", None)
+        if q_rec is not None:
+            from comb_spec_searcher.typing import WorkPacket
+
+            rec["p"] = q_rec.project(WorkPacket(label, tuple(strategies), inferral))
+        self.packets.append(rec)
 
     def before_hasspec(self):
         if self.sched_pos < len(self.schedule):
@@ -205,6 +244,8 @@ class Session:
 
     def after_hasspec(self, ans):
         self.checks += 1
+        if hasattr(self, "answers"):
+            self.answers.append(bool(ans))
         if self.flavour != "forest":
             if "hasspec" in self.record:
                 self.ev["hasspec"].append({"op": "hasspec", "rd": [], "root": int(self.searcher.start_label), "res": [],
